@@ -23,6 +23,10 @@ for run in req['runs']:
         # bystanders: files that sit in the directory but are not named on the command line
         for name, content in list(run.get('bystanders', {}).items()) + list(run['files'].items()):
             p = os.path.join(d, name)
+            if isinstance(content, str) and content.startswith('<notdir>'):
+                # a path with a trailing slash whose last component is a regular file (holding what follows the marker)
+                p, content = p.rstrip('/'), content[len('<notdir>'):]
+            os.makedirs(os.path.dirname(p), exist_ok=True)
             if content == '<dir>':
                 os.mkdir(p)
             elif isinstance(content, dict):
